@@ -253,11 +253,21 @@ func (sc *scenario) callArgs(withLogger bool) []am.Arg {
 func (sc *scenario) redefineOnce(fin, fout *filterSpec) ([]string, *am.Func) {
 	sc.events, sc.pops = nil, nil
 	args := sc.callArgs(true)
+	// a filter option replaces any filter set before it, also when it is nil ("no filter"): one Redefine in four first sets
+	// filters that admit nothing and then the scenario's own (or nil)
+	junk := (len(sc.Opts)+len(sc.Funcs))%4 == 0
+	if junk {
+		args = append(args, am.FilterInput(am.FilterOr()), am.FilterOutput(am.FilterOr()))
+	}
 	if fin != nil {
 		args = append(args, am.FilterInput(fin.mk()))
+	} else if junk {
+		args = append(args, am.FilterInput(nil))
 	}
 	if fout != nil {
 		args = append(args, am.FilterOutput(fout.mk()))
+	} else if junk {
+		args = append(args, am.FilterOutput(nil))
 	}
 	am.VerifSetPopHook(func(h interface{}) { sc.pops = append(sc.pops, sc.hashName(h)) })
 	defer am.VerifSetPopHook(nil)
@@ -374,7 +384,7 @@ func genRedef(w *bufio.Writer, r *rng, id int) {
 	if id%3 == 0 {
 		// after everything else of this scenario (the probes rebuild the function objects)
 		defer func() {
-			fmt.Fprintf(w, "scn probe %d\nsibling %s\nbare %s\npassthru %s\nend\n", id, siblingProbe(sc, sc.callArgs(false)), bareProbe(sc), passthruProbe())
+			fmt.Fprintf(w, "scn probe %d\nsibling %s\nbare %s\npassthru %s\ntwinsets %s\nend\n", id, siblingProbe(sc, sc.callArgs(false)), bareProbe(sc), passthruProbe(), twinSetsProbe())
 		}()
 	}
 	if newFn == nil || sc.Subs {
@@ -649,6 +659,16 @@ func genHist(w *bufio.Writer, r *rng, id int) {
 		if f.Form == "built" && !f.Once && r.chance(1, 2) {
 			f.Script = "fail@0"
 			break
+		}
+	}
+	if sc.Funcs[0].Once && r.chance(1, 2) {
+		// a run-once target whose later calls meet a converter that fails from its second execution on: the error of
+		// that call must be reported, however long the target has had a result
+		for _, f := range sc.Funcs[1:] {
+			if !f.Once && f.Script == "ok" && f.Form != "built" {
+				f.Script, f.HasErr = "fail@1", true
+				break
+			}
 		}
 	}
 	if r.chance(1, 4) && sc.buildAll() == nil {
@@ -1026,6 +1046,43 @@ func wrapProbe(sc *scenario) string {
 			verdict = "err"
 		} else {
 			verdict = "ok"
+		}
+	}) {
+		verdict = "panic"
+	}
+	return verdict
+}
+
+// twinSetsProbe: two value sets built from the same list of values, and the output sets of two functions with the same
+// result types, are separate objects: what is loaded into one is not seen through the other.
+func twinSetsProbe() string {
+	verdict := "skip"
+	if recovered(func() {
+		spec := []am.Value{{Name: "zzq", Type: tyOf(0)}, {Type: tyOf(1)}}
+		a, err1 := am.NewValueSet(spec)
+		b, err2 := am.NewValueSet(spec)
+		if err1 != nil || err2 != nil || a == nil || b == nil {
+			return
+		}
+		verdict = "intact"
+		a.Named("zzq").Value = reflect.ValueOf(K0{ID: 11})
+		b.Named("zzq").Value = reflect.ValueOf(K0{ID: 22})
+		if vidOf(a.Named("zzq").Value) != 11 || vidOf(b.Named("zzq").Value) != 22 {
+			verdict = "aliased"
+			return
+		}
+		f1, e1 := am.NewFunc(func() (K0, K1) { return K0{ID: 31}, K1{ID: 32} })
+		f2, e2 := am.NewFunc(func() (K0, K1) { return K0{ID: 41}, K1{ID: 42} })
+		if e1 != nil || e2 != nil {
+			return
+		}
+		if f1.Output().FromResult(f1.Call()) != nil || f2.Output().FromResult(f2.Call()) != nil {
+			verdict = "err"
+			return
+		}
+		v1, v2 := f1.Output().Typed(tyOf(0)), f2.Output().Typed(tyOf(0))
+		if v1 == nil || v2 == nil || vidOf(v1.Value) != 31 || vidOf(v2.Value) != 41 {
+			verdict = "aliased"
 		}
 	}) {
 		verdict = "panic"
